@@ -174,7 +174,8 @@ theorem insertOne_sep {s : State} (h : Sep s) (b : String) (r : Ref) : Sep (inse
   · exact h
   split
   · exact h
-  rename_i o _
+  rename_i hcr _ o ho
+  have hheld : s.client r = true := by simpa using hcr
   split
   · rename_i eid _
     have := replace_sep h b (some eid) r
@@ -189,7 +190,11 @@ theorem insertOne_sep {s : State} (h : Sep s) (b : String) (r : Ref) : Sep (inse
     have hr := storeObjOf_lookup hl
     simp only [if_true]
     show Sep { (deepEv (allocHeld s _).1 _).1 with store := _ }
-    refine Sep.of (SepR.deepEv (SepR.allocHeld h _) _) _ ?_
+    refine Sep.of (SepR.deepEv (SepR.allocHeld h _ ?_) _) _ ?_
+    · intro d hd
+      simp only [cellRef, Option.some.injEq] at hd
+      subst hd
+      exact h.closed r hheld _ (dataRefOf_evAt ho)
     intro x hx
     rcases storeObjOf_setKey hx with hx | rfl | hx
     · exact Or.inl hx
